@@ -13,7 +13,7 @@ EXPLANATION = (
     'the current hash is read there, compared by cas_decide with the client\'s untouched `expected`, the live mutation is on the Commit edge and the '
     'conflict rename on the Conflict edge; (R4) cas_decide is Commit iff current == expected (decision DAG, 2 leaves); (R5) committed:true / deleted:true / '
     'committed:false replies are built only under the Ok edge of the rename / remove they report; (R6) a staging file has a single owner; (R7) the client '
-    'passes the listed hash as `expected`. R3 also: every value the current-hash helper returns is computed from the file - one taken out of a collection (a per-process memo) is reported. Not decided: the linearization (paper argument from R1-R6); flock semantics on the served file system (assumed).')
+    'passes the listed hash as `expected`. R3 also: every value the current-hash helper returns is computed from the file - one taken out of a collection (a per-process memo) is reported. Not decided: the linearization (paper argument from R1-R6); flock semantics on the served file system (assumed). R5 also: a committed:false reply on the Conflict outcome that can be reached with the conflict-copy rename cut out is not decided - unless the test that lets it skip the rename reads the hash of exactly the live path, which is a violation (the live file is not a preserved copy).')
 ASSUMPTIONS = ['flock(2) excludes across processes on the served file system', 'rename(2)/unlink(2) are atomic']
 
 MUT = tables.FS_MUTATORS
